@@ -28,3 +28,35 @@ Definition text_ok (p : string * (string * option (string * string))) : bool :=
 Theorem C04_kits_texts : forallb text_ok kit_texts = true /\ List.length kit_texts = List.length kits.
 Proof. vm_compute. split; reflexivity. Qed.
 Print Assumptions C04_kits_texts.
+
+(* structure() AS REGENERATED FROM THE SOURCE, run on every class of the table that derives its
+   structure (AbstractModule / AbstractVector / AbstractPart's own method): it returns, character
+   for character, the text the implementation returned for that class *)
+From MV.Gen Require Import Src.
+
+Definition sch_list_eqb (a b : pystr) : bool := list_eqb sch_eqb a b.
+
+Definition derived_ok (p : string * (string * option (string * string))) : bool :=
+  let '(n, (text, sig)) := p in
+  match find (fun k => String.eqb (kname k) n) kits with
+  | None => false
+  | Some k =>
+    if kderived k then
+      match sig with
+      | Some (u, d) =>
+        match AbstractPart_structure (PCS (crole (kcls k)) (cenz (kcls k)) (sch_of_string u, sch_of_string d)) with
+        | Ok t => sch_list_eqb t (sch_of_string text)
+        | Err _ => false
+        end
+      | None =>
+        match (match crole (kcls k) with RModule => AbstractModule_structure (kcls k) | RVector => AbstractVector_structure (kcls k) end) with
+        | Ok t => sch_list_eqb t (sch_of_string text)
+        | Err _ => false
+        end
+      end
+    else true
+  end.
+
+Theorem C05_kits_src_structures : forallb derived_ok kit_texts = true.
+Proof. vm_compute. reflexivity. Qed.
+Print Assumptions C05_kits_src_structures.
